@@ -1,5 +1,6 @@
 mod e1;
 mod e2;
+mod e3;
 mod tables;
 mod util;
 
@@ -19,6 +20,13 @@ fn main() {
             let mut rng = Rng::new(seed);
             let r = std::panic::catch_unwind(std::panic::AssertUnwindSafe(|| match engine {
                 "octet" => e1::octet(&mut rec, &mut rng, thorough),
+                "cm" => e3::cm(&mut rec, &mut rng, thorough),
+                "enc" => e3::enc(&mut rec, &mut rng, thorough),
+                "repair" => e3::repair(&mut rec, &mut rng, thorough),
+                "object" => e3::object(&mut rec, &mut rng, thorough),
+                "decblk" => e3::decblk(&mut rec, &mut rng, thorough),
+                "decobj" => e3::decobj(&mut rec, &mut rng, thorough),
+                "inter" => e3::inter(&mut rec, &mut rng, thorough),
                 "wire" => e2::wire(&mut rec, &mut rng, thorough),
                 "otinew" => e2::oti_new(&mut rec, &mut rng, thorough),
                 "partition" => e2::partition(&mut rec, &mut rng, thorough),
